@@ -13,3 +13,90 @@ Print Assumptions C02_quoted_value_roundtrip.
 Theorem C02_quoted_literal_starts_with_quote : forall s, exists body, quote s = 34 :: body.
 Proof. exact quote_starts_with_dq. Qed.
 Print Assumptions C02_quoted_literal_starts_with_quote.
+
+(* ---- added by bin/mkprops ---- *)
+From GoFlags Require Import Base.Str Base.Utf8 Golib.Strings Golib.Strconv Model.Types Model.Tag Model.Scan Model.Lookup Model.Convert Model.State Model.Closest Model.Help Model.Parse Model.Ini Model.Complete.
+From GoFlags Require Import Proofs.SpellSpec.
+
+(* --name=V and --name V are interchangeable (up to the last-popped token) *)
+Theorem C02_long_equals_vs_separate :
+  forall (cfg : pconfig) (orc : oracles) (root : command) (help_text : rt -> str) 
+           (s1 s2 : pst) (r : rt) (n V : str) (rest : list str) (oc : octx),
+         ps_sim s1 s2 ->
+         n <> [] ->
+         hd 0 n <> 45 ->
+         ~ In 61 n ->
+         find_last (lk_long (ps_lk s1)) n = Some oc ->
+         can_argument (oc_opt oc) = true ->
+         o_optional (oc_opt oc) = false ->
+         is_valid_value (oc_opt oc) V = true ->
+         ~ (po_passdd (pc_opts cfg) = true /\ V = s2l "--") ->
+         ps_args s1 = (s2l "--" ++ n ++ [61] ++ V) :: rest ->
+         ps_args s2 = (s2l "--" ++ n) :: V :: rest ->
+         res_eqv (step cfg orc root help_text s1 r) (step cfg orc root help_text s2 r).
+Proof. exact C02_long_eq_vs_separate. Qed.
+Print Assumptions C02_long_equals_vs_separate.
+
+(* -xV, -x=V and -x V are interchangeable for every valid rune x *)
+Theorem C02_short_spellings :
+  forall (cfg : pconfig) (orc : oracles) (root : command) (help_text : rt -> str) 
+           (s1 s2 s3 : pst) (r : rt) (c : N) (V : str) (rest : list str) (oc : octx),
+         ps_sim s1 s2 ->
+         ps_sim s1 s3 ->
+         valid_rune c = true ->
+         c <> 45 ->
+         c <> 61 ->
+         find_last (lk_short (ps_lk s1)) (encode_rune c) = Some oc ->
+         can_argument (oc_opt oc) = true ->
+         o_optional (oc_opt oc) = false ->
+         V <> [] ->
+         hd 0 V <> 61 ->
+         is_valid_value (oc_opt oc) V = true ->
+         ~ (po_passdd (pc_opts cfg) = true /\ V = s2l "--") ->
+         ps_args s1 = (45 :: encode_rune c ++ V) :: rest ->
+         ps_args s2 = (45 :: encode_rune c ++ 61 :: V) :: rest ->
+         ps_args s3 = (45 :: encode_rune c) :: V :: rest ->
+         res_eqv (step cfg orc root help_text s1 r) (step cfg orc root help_text s2 r) /\
+         res_eqv (step cfg orc root help_text s1 r) (step cfg orc root help_text s3 r).
+Proof. exact C02_short_forms. Qed.
+Print Assumptions C02_short_spellings.
+
+Theorem C02_short_dispatch_eq :
+  forall (cfg : pconfig) (orc : oracles) (help_text : rt -> str) (s : pst) (r : rt) 
+           (c : N) (V : str) (oc : octx),
+         valid_rune c = true ->
+         find_last (lk_short (ps_lk s)) (encode_rune c) = Some oc ->
+         parse_short cfg orc help_text (encode_rune c) (Some V) s r =
+         parse_option cfg orc help_text oc (negb (o_optional (oc_opt oc))) (Some V) s r /\
+         (V <> [] ->
+          can_argument (oc_opt oc) = true ->
+          parse_short cfg orc help_text (encode_rune c ++ V) None s r =
+          parse_option cfg orc help_text oc (negb (o_optional (oc_opt oc))) (Some V) s r) /\
+         parse_short cfg orc help_text (encode_rune c) None s r =
+         parse_option cfg orc help_text oc (negb (o_optional (oc_opt oc))) None s r.
+Proof. exact C02_short_dispatch. Qed.
+Print Assumptions C02_short_dispatch_eq.
+
+(* a cluster -ab of flags is interchangeable with -a -b *)
+Theorem C02_cluster_eq :
+  forall (cfg : pconfig) (orc : oracles) (root : command) (help_text : rt -> str) 
+           (s1 s2 : pst) (r : rt) (a b : N) (rest : list str) (oca ocb : octx),
+         ps_sim s1 s2 ->
+         a < 128 ->
+         b < 128 ->
+         a <> 45 ->
+         b <> 45 ->
+         b <> 61 ->
+         find_last (lk_short (ps_lk s1)) (encode_rune a) = Some oca ->
+         find_last (lk_short (ps_lk s1)) (encode_rune b) = Some ocb ->
+         can_argument (oc_opt oca) = false ->
+         can_argument (oc_opt ocb) = false ->
+         ps_args s1 = [45; a; b] :: rest ->
+         ps_args s2 = [45; a] :: [45; b] :: rest ->
+         cluster_rel [45; b] (step cfg orc root help_text s1 r) (two_steps cfg orc root help_text s2 r) /\
+         (forall r1 : rt,
+          opt_set orc (pc_nsdelim cfg) help_text oca None r = Ok (r1, None) ->
+          res_eqv (step cfg orc root help_text s1 r) (two_steps cfg orc root help_text s2 r)).
+Proof. exact C02_cluster. Qed.
+Print Assumptions C02_cluster_eq.
+
